@@ -189,12 +189,12 @@ func identPool(m *kit.Model, unregistered bool) []kit.Ident {
 
 // Op is one scripted operation of a history.
 type Op struct {
-	Kind  string       // create, get, close, cancel, pclose, batch, closeN
-	Scope int          // target scope tag (create: parent)
-	Ctx   int          // create: context kind
-	Ident kit.Ident    // get
-	Jobs  [][]batchJob // batch: per goroutine
-	N     int          // closeN: number of concurrent Close calls
+	Kind  string         // create, get, close, cancel, pclose, batch, closeN
+	Scope int            // target scope tag (create: parent)
+	Ctx   int            // create: context kind
+	Ident kit.Ident      // get
+	Jobs  [][]batchJob   // batch: per goroutine
+	N     int            // closeN: number of concurrent Close calls
 	Edits []kit.CollEdit // cedit: changes to the collection the provider was built from
 }
 
